@@ -18,17 +18,19 @@ EXPLANATION = (
     "in the unit of the state (y0, f(.), atol of degree 1): every +, -, max, min, comparison and selection combines equal degrees and the "
     "returned step is unit-free, i.e. all norms are tolerance-scaled as in Hairer-Norsett-Wanner II.4 (invariance under badly scaled states)."
     "  Overflow safety for badly scaled states: every Euclidean norm in both helpers is taken of a quantity of degree 0 in the state unit (tolerance-scaled, or divided by its largest magnitude), since jnp.linalg.norm squares its entries."
+    "  Conformance with the classical heuristic: the value of dt0_adaptive equals the two-stage formula of Hairer-Norsett-Wanner II.4 (a)-(f) "
+    "(built from the function's own inputs) modulo algebraic and logical rewriting -- constants, thresholds, exponent and the cap included."
 )
 LEVEL = "other"
-TECHNIQUE = "abstract interpretation over the AST: sign/interval analysis with disjunctive guard refinement at np.where, must-pass-through guard tracking, value-numbering normal form, homogeneity-degree (unit) typing"
+TECHNIQUE = "abstract interpretation over the AST: sign/interval analysis with disjunctive guard refinement at np.where, must-pass-through guard tracking, value-numbering normal form, homogeneity-degree (unit) typing, canonical-form comparison with the specified formula"
 LEVEL_TEXT = (
     "Positivity and non-zero denominators are derived for all inputs at once from the sign lattice (norm >= 0, nugget/atol/scale > 0), "
     "including u0 = 0 and f(u0) = 0, which the tests never sample."
 )
 LEVEL_NOTE = (
     "Assumes atol > 0, rtol >= 0, scale > 0, nugget > 0, error_contraction_rate >= 1 and finite inputs (no overflow reasoning: "
-    "finiteness for 1e300-sized states and 'a solve started with it finishes' are not decided; of the agreement with an independent "
-    "Hairer-Norsett-Wanner implementation only the necessary conditions 'two-stage wiring' and 'every norm tolerance-scaled' are decided, not the constants).  linalg.vector_norm >= 0 is trusted."
+    "'a solve started with it finishes' is not decided).  The Hairer-Norsett-Wanner formula is compared with the Euclidean norm the helper uses "
+    "(HNW's own norm divides by sqrt(n); which of the two an independent implementation takes is not decided here).  linalg.vector_norm >= 0 is trusted."
 )
 
 
@@ -111,6 +113,98 @@ def norm_scale_free(rule, fname, out, hom, where):
                      f"the Euclidean norm is taken of a quantity of degree {d} in the state unit: its squares overflow for badly scaled states (1e300) although the norm is representable", where_of(n, where))
 
 
+# ---------------------------------------------------------------------------
+# R-C18-5: the value of dt0_adaptive *is* the two-stage formula of Hairer-Norsett-Wanner II.4.
+# Both the source expression and the reference are brought into a canonical form in which
+#   * arithmetic is a polynomial normal form (nf) over the non-arithmetic sub-expressions,
+#   * comparisons are oriented (a < b == b > a), `&` / `|`, max and min are sets,
+#   * max(a, b) <= c is the conjunction (a <= c) & (b <= c)  (and the dual forms),
+# so that algebraic and logical rewritings of the same formula compare equal, and any other formula does not.
+_ARITH_OPS = {"add", "sub", "mul", "div", "neg", "pow", "np.sqrt", "np.asarray", "np.power"}
+
+
+def _ckey(t, table):
+    from fractions import Fraction
+
+    n = nf._num(t)
+    if n is not None:
+        return ("num", n)
+    if not isinstance(t, T.Term):
+        return ("py", repr(t))
+    if t.op in _ARITH_OPS:
+        # replace the maximal non-arithmetic sub-expressions by atoms named after their canonical key
+        def repl(x):
+            if nf._num(x) is not None or not isinstance(x, T.Term):
+                return x
+            if x.op in _ARITH_OPS:
+                return T.mk(x.op, tuple(repl(a) for a in x.args), kwargs={k: repl(v) for k, v in x.kwargs.items()})
+            k = _ckey(x, table)
+            if k not in table:
+                table[k] = T.atom(f"@{len(table)}")
+            return table[k]
+
+        poly = nf.norm(repl(t))
+        return ("poly", frozenset((tuple((b.uid, e) for b, e in mono), c) for mono, c in poly.items()))
+    if t.op in ("lt", "le", "gt", "ge") and len(t.args) == 2:
+        a, b = t.args
+        if t.op in ("gt", "ge"):
+            a, b = b, a
+        op = "lt" if t.op in ("lt", "gt") else "le"
+        # max(x, y) <= c  ==  (x <= c) & (y <= c);   c <= min(x, y)  ==  (c <= x) & (c <= y)   (same for <)
+        if isinstance(a, T.Term) and a.op == "np.maximum":
+            return ("and", frozenset(_ckey(T.mk(op, (x, b)), table) for x in a.args))
+        if isinstance(b, T.Term) and b.op == "np.minimum":
+            return ("and", frozenset(_ckey(T.mk(op, (a, x)), table) for x in b.args))
+        if isinstance(a, T.Term) and a.op == "np.minimum":
+            return ("or", frozenset(_ckey(T.mk(op, (x, b)), table) for x in a.args))
+        if isinstance(b, T.Term) and b.op == "np.maximum":
+            return ("or", frozenset(_ckey(T.mk(op, (a, x)), table) for x in b.args))
+        return (op, _ckey(a, table), _ckey(b, table))
+    if t.op in ("and", "or", "np.logical_and", "np.logical_or") and len(t.args) == 2:
+        kind = "and" if t.op.endswith("and") else "or"
+        parts = set()
+        for x in t.args:
+            k = _ckey(x, table)
+            if k[0] == kind:
+                parts |= set(k[1])
+            else:
+                parts.add(k)
+        return (kind, frozenset(parts))
+    if t.op in ("np.maximum", "np.minimum") and len(t.args) == 2:
+        parts = set()
+        for x in t.args:
+            k = _ckey(x, table)
+            if k[0] == t.op:
+                parts |= set(k[1])
+            else:
+                parts.add(k)
+        return (t.op, frozenset(parts))
+    if t.op in ("np.where", "ite") and len(t.args) == 3:
+        return ("where", _ckey(t.args[0], table), _ckey(t.args[1], table), _ckey(t.args[2], table))
+    if t.op == "atom":
+        return ("atom", t.uid)
+
+    def arg(x):
+        if isinstance(x, (tuple, list)):
+            return ("seq",) + tuple(arg(y) for y in x)
+        return _ckey(x, table)
+
+    return (t.op, tuple(arg(a) for a in t.args), tuple(sorted((k, arg(v)) for k, v in t.kwargs.items())))
+
+
+def hnw_reference(y0, f0, f1, atol, rtol, rate):
+    """Hairer, Norsett, Wanner: Solving ODEs I, Sec. II.4, 'Starting Step Size', steps a)-f), with the norm the helper uses."""
+    m = T.mk
+    sc = m("add", (atol, m("mul", (m("np.abs", (y0,)), rtol))))
+    norm = lambda x: m("linalg.vector_norm", (x,))  # noqa: E731
+    d0, d1 = norm(m("div", (y0, sc))), norm(m("div", (f0, sc)))
+    h0 = m("np.where", (m("or", (m("lt", (d0, 1e-5)), m("lt", (d1, 1e-5)))), 1e-6, m("div", (m("mul", (0.01, d0)), d1))))
+    d2 = m("div", (norm(m("div", (m("sub", (f1, f0)), sc))), h0))
+    big = m("np.maximum", (d1, d2))
+    h1 = m("np.where", (m("le", (big, 1e-15)), m("np.maximum", (1e-6, m("mul", (h0, 1e-3)))), m("pow", (m("div", (0.01, big)), m("div", (1.0, m("add", (rate, 1.0))))))))
+    return m("np.minimum", (m("mul", (100.0, h0)), h1)), h0
+
+
 def run(chk, S: Session):
     chk.assume("atol > 0, rtol >= 0, scale > 0, nugget > 0, error_contraction_rate >= 1, finite inputs")
     chk.trust("linalg.vector_norm(x) >= 0", "np.where(c, a, b) selects a where c holds and b elsewhere", "np.abs(x) >= 0")
@@ -191,6 +285,18 @@ def run(chk, S: Session):
             ok = arg is not None and nf.add(nf.norm(arg), nf.norm(y0), -1) == nf.mul(dt_first, nf.norm(f0)) and bool(dt_first)
             detail = f"second evaluation at state {T.show(arg, 4)}, time {T.show(tt, 4)}"
     r2.require(ok, "dt0_adaptive second stage", "f evaluated at (y0 + dt0*f0, t0 + dt0) with the same dt0", detail, where)
+    # the value is the two-stage formula (the second evaluation is taken as found: its arguments are the obligation above)
+    r5 = chk.rule("R-C18-5", "the tolerance-aware helper returns the two-stage formula of Hairer-Norsett-Wanner II.4 (a)-(f): d0, d1 in the tolerance-scaled norm, "
+                  "h0 = 0.01 d0/d1 (1e-6 if d0 or d1 < 1e-5), d2 = |f(t0+h0, y0+h0 f0) - f0| / h0, h1 = (0.01/max(d1,d2))^(1/(p+1)) (max(1e-6, 1e-3 h0) if max(d1,d2) <= 1e-15), h = min(100 h0, h1); "
+                  "compared modulo algebraic and logical rewriting", floor=1)
+    if len(vfc) == 2 and first is not None and second is not None:
+        f1 = T.mk("tree.ravel", (T.mk("getitem", (second, 0)),))
+        ref, _h0 = hnw_reference(y0, f0, f1, atol, rtol, rate)
+        table = {}
+        same = _ckey(out, table) == _ckey(ref, table)
+        r5.require(same, "dt0_adaptive value", "equals min(100 h0, h1) of HNW II.4", f"dt0_adaptive returns {T.show(out, 7)}; the reference is {T.show(ref, 7)}", where)
+    else:
+        r5.unknown("dt0_adaptive value", "the two vector-field evaluations were not found", where)
     # homogeneity in the state unit: y0, f(.) and atol carry the unit of the state; rtol, the rate, times and literals do not.
     # Hairer-Norsett-Wanner II.4 measures y0, f0 and f1 - f0 in the norm scaled by sc = atol + |y0| rtol, so the step is unchanged by y -> c*y.
     hom = Hom({T.mk("tree.ravel", (A("y0"),)): 1, A("y0"): 1, atol: 1, rtol: 0, rate: 0, t0: 0})
